@@ -98,6 +98,8 @@ def run(tier, seed, only):
         except mir.Unsupported as e:
             ctx.add(name=f"smt:c03_translate_{name}", engine="smt:mir2smt", status="inconclusive",
                     reason="translator rejected the current source: " + str(e), functions=FILE)
+    from . import smt_c03pk
+    smt_c03pk.run(ctx, tier)
     return ctx.results
 
 
